@@ -40,6 +40,7 @@ FORECASTERS = zoo.LEAVES + zoo.SLOW_LEAVES + [
     ["ensemble", {"aggfunc": "mean"}, [["naive", {"strategy": "last"}], ["poly", {"degree": 1}]]],
     ["pipeline", {}, [["deseason", {"sp": 3, "model": "additive"}], ["detrend", {"degree": 1}]], ["naive", {"strategy": "mean", "window_length": 3}]],
     ["pipeline", {}, [["log", {}]], ["poly", {"degree": 1}]],
+    ["pipeline", {}, [["detrend", {"default": True}]], ["naive", {"strategy": "mean", "window_length": 4}]],
     ["multiplex", {"selected": 1}, [["naive", {"strategy": "last"}], ["poly", {"degree": 1}]]],
     ["stack", {"reg": "lin"}, [["naive", {"strategy": "last"}], ["poly", {"degree": 1}]]],
     ["grid", {"grid": {"strategy": ["last", "mean"]}, "cv": ["sliding", {"fh": [1], "window_length": 8, "step_length": 4}], "scoring": None}, ["naive", {}]],
@@ -166,6 +167,12 @@ def _series_t(case, ctx):
             used = True
         except Exception:  # noqa
             used = False
+        if used and not (kind == "imputer" and cfg[1].get("method") == "random"):
+            # instances are separate: fitting ANOTHER instance of the same class on other data does not change what this one returns
+            ok, a_again = ctx.call("transform:exception:" + name, tr.transform, z)
+            if ok:
+                ctx.check("apply.interleaved", _eq(a, a_again), "isolation:%s:changed-by-fitting-another-instance" % name,
+                          "transform of a fitted instance changed after another instance of the same class was fitted on other data")
         if used:
             ok, _ = ctx.call("fit:exception:%s:refit-of-used-instance" % name, u.fit, z)
             if ok:
@@ -241,6 +248,11 @@ def _forecaster(case, ctx):
         used = True
     except Exception:  # noqa
         used = False
+    if used:
+        ok, a_again = ctx.call("predict:exception:" + spec[0], f.predict, fh, Xf)
+        if ok:
+            ctx.check("apply.interleaved", _eq(a, a_again, 1e-12), "isolation:%s:changed-by-fitting-another-instance" % spec[0],
+                      "predict of a fitted forecaster changed after another instance with equal parameters was fitted on other data")
     if used:
         ok, _ = ctx.call("fit:exception:%s:refit-of-used-instance" % spec[0], h.fit, y.copy(), None if X is None else X.copy(), fh)
         if ok:
@@ -368,6 +380,14 @@ def _panel_body(case, ctx, name, est, tagname, sup, Xtr, Xte, y, rng, multi, cel
             used = True
         except Exception:  # noqa
             used = False
+        if used:
+            # instances are separate: what the first estimator returns is not changed by another instance fitted on another panel
+            for m in methods:
+                if m in first:
+                    ok, again = ctx.call("%s:exception:%s" % (m, name), getattr(est, m), Xte)
+                    if ok:
+                        ctx.check("apply.interleaved", _eq(first[m], again, 1e-12), "isolation:%s:changed-by-fitting-another-instance" % name,
+                                  "%s of a fitted estimator changed after another instance of the same class was fitted on another panel" % m)
         if used:
             o3 = fit_apply(u, "refit-of-used-instance")
             for m in o3:
